@@ -17,6 +17,7 @@
    or / sum / min / max on words; they are exercised only through these differential runs. *)
 From stdpp Require Import gmap sorting.
 From ColumnV Require Import Bytes Store Bitmap.
+From ColumnV Require Import FloatInt.
 Local Open Scope N_scope.
 
 Theorem c04_and : ∀ a b i, mem (bm_and a b) i = mem a i && mem b i.
@@ -64,3 +65,11 @@ Theorem c04_missing_column : ∀ s t c,
   sel_of s (do_fop s t (FWith c)) = ∅ ∧ sel_of s (do_fop s t (FWithout c)) = sel_of s (initialize s t).
 Proof. intros s t c Hy. unfold do_fop. rewrite Hy. done. Qed.
 Print Assumptions c04_missing_column.
+
+(* float columns are exercised with integral values (merges, WithFloat, Sum / Min / Max): the
+   model computes on them through the IEEE-754 encodings of integers, which are inverse to each
+   other on the whole range where float arithmetic on integers is exact *)
+Theorem c04_float_integers_round_trip : ∀ z,
+  ((Z.abs z < 2 ^ 53)%Z → fdec (V8 (fenc64 z)) = Some z) ∧ ((Z.abs z < 2 ^ 24)%Z → fdec (V4 (fenc32 z)) = Some z).
+Proof. intro z. split; [apply fdec_fenc64|apply fdec_fenc32]. Qed.
+Print Assumptions c04_float_integers_round_trip.
